@@ -216,4 +216,6 @@ class repeated_node_with_interleaving_comments_property(
         properties.replace_node(repeated, value.repeated)
         self._inner_field.__set__(instance, value.repeated)
         properties.drop_views_of(instance, instance.__dict__.get(self._attr))
-        instance.__dict__[self._attr] = value
+        # value may be bound to another model, or be the plain wrapper that copying produces.
+        instance.__dict__[self._attr] = RepeatedNodeWithInterleavingCommentsWrapper(
+            value.repeated, self._inner_field, instance)
